@@ -23,6 +23,8 @@ def main():
         sid = os.path.basename(d)
         meta = json.load(open(os.path.join(d, "meta.json")))
         demo = meta["demo_cmd"].replace("/tmp/seedwt_%s" % meta["property"], WT).replace("/tmp/seedwt2_%s" % meta["property"], WT).replace("/tmp/seedwt3_%s" % meta["property"], WT)
+        import re
+        demo = re.sub(r"\s*;\s*rm -f \S+\s*$", "", demo)  # the exit status must be the demo's
         res = dict(id=sid)
         clean()
         rc, out = sh(demo); res["demo_on_unchanged"] = "pass" if rc == 0 else "FAIL"
